@@ -34,13 +34,14 @@ def _limits(cpu_s, mem_mb):
 
 
 class Run:
-    __slots__ = ("out", "err", "rc", "timeout", "signal", "cpu")
+    __slots__ = ("out", "err", "rc", "timeout", "signal", "cpu", "cpu_exhausted")
 
     def __init__(self, out, err, rc, timeout):
         self.out = out
         self.err = err
         self.rc = rc
         self.timeout = timeout
+        self.cpu_exhausted = False
         self.signal = -rc if rc is not None and rc < 0 else 0
 
     def crashed(self):
@@ -85,7 +86,11 @@ def run_opensmt(text, flavour="rel", args=(), cpu_s=20, mem_mb=4096, pipe=False,
             rc, out, err, to = None, ex.stdout or b"", ex.stderr or b"", True
         if rc is not None and rc in (-signal.SIGXCPU, -signal.SIGKILL):
             to = True
-        return Run(out.decode("utf-8", "replace"), err.decode("utf-8", "replace"), rc, to)
+        r = Run(out.decode("utf-8", "replace"), err.decode("utf-8", "replace"), rc, to)
+        # only an exhausted CPU budget is evidence about the program; a wall-clock watchdog or a SIGKILL (memory pressure,
+        # hard limit) on a loaded machine is not
+        r.cpu_exhausted = rc == -signal.SIGXCPU
+        return r
     finally:
         if tmp and not keep:
             try:
